@@ -2,7 +2,7 @@
 # Runs the repository's own test suite (hooks off: no cfg flag is ever needed) and checks that
 # every test of the pinned baseline (tools/baseline_tests.txt, 111 tests) passes.
 here="$(cd "$(dirname "$0")" && pwd)"
-cd /repo || exit 2
+cd "${REPO_DIR:-/repo}" || exit 2
 log="$(mktemp)"
 CARGO_NET_OFFLINE=true cargo test --workspace --no-fail-fast --offline >"$log" 2>&1
 python3 - "$here/baseline_tests.txt" "$log" <<'PY'
